@@ -487,6 +487,9 @@ type C5TQuery struct {
 	Rows   []C5TEntry // raw index rows of phase 1 before trace-id de-duplication (unfenced path only)
 	qo     queryOptions
 	done1  bool
+	// BeforeRelease (optional) runs inside PullDefault after the last Pull and before queryResult.Release: the window in
+	// which a client holds a finished or failed result.
+	BeforeRelease func()
 }
 
 // NewQuery prepares the query options of an ordered query over the whole key range of the index.
@@ -570,6 +573,43 @@ func (q *C5TQuery) Phase2() error {
 	return err
 }
 
+// c5tQuotaPM is the memory protector of a query whose block-scan stage is given a fixed quota (fault alphabet of the
+// block-scan stage: 0 = "block scan quota exceeded" on the first block).
+type c5tQuotaPM struct {
+	protector.Nop
+	quota int64
+}
+
+func (p c5tQuotaPM) AvailableBytes() int64 { return p.quota }
+
+// Phase2Stream is the core half of the unfenced ordered query in the form the block-scan stage of the streaming
+// pipeline hands to the result iterator (the closure of startBlockScanStage: currentSnapshot of every table, part
+// selection, a scanBatch carrying the pinned snapshots and a cursor channel, scanPartsInline feeding that channel,
+// close). The channel is buffered so that the stage runs to its end on the calling thread; queryResult.acceptScanBatch
+// later drains it. quota < 0: unlimited; quota = 0: the scan reports "block scan quota exceeded" through the channel.
+func (q *C5TQuery) Phase2Stream(quota int64) {
+	t := &trace{pm: c5tQuotaPM{quota: quota}, l: q.v.t.l, vectorized: q.v.t.vectorized}
+	if q.batch.err != nil {
+		q.sb = &scanBatch{traceBatch: q.batch, err: q.batch.err}
+		return
+	}
+	var snapshots []*snapshot
+	for _, table := range []*tsTable{q.v.tst} {
+		if s := table.currentSnapshot(); s != nil {
+			snapshots = append(snapshots, s)
+		}
+	}
+	if len(snapshots) == 0 {
+		q.sb = &scanBatch{traceBatch: q.batch}
+		return
+	}
+	parts, groupedIDs, _ := selectVectorizedTraceParts(q.batch, snapshots)
+	ch := make(chan scanCursorResult, 1<<12)
+	q.sb = &scanBatch{traceBatch: q.batch, cursorCh: ch, snapshots: snapshots}
+	t.scanPartsInline(q.ctx, parts, groupedIDs, q.qo, ch)
+	close(ch)
+}
+
 // Fenced is phase 1 + core pin of the vectorized ordered query as one call of buildConsistentVectorizedScanBatch
 // (publication fence, synchronous index read, core snapshot acquisition, fence release).
 func (q *C5TQuery) Fenced() error {
@@ -623,6 +663,11 @@ func (q *C5TQuery) PullDefault() ([]string, map[string][]C5TObs, error) {
 	result := queryResult{ctx: q.ctx, cancel: q.cancel, tagProjection: q.qo.TagProjection, keys: map[string]int64{}}
 	traceQueryResultTracker.Acquire(&result)
 	defer result.Release()
+	defer func() {
+		if q.BeforeRelease != nil {
+			q.BeforeRelease()
+		}
+	}()
 	result.acceptScanBatch(q.sb)
 	q.sb = nil
 	for {
